@@ -447,6 +447,12 @@ func (t *diskTrack) Write(buf []byte) (int, error) {
 		if ((p.SequenceNumber - lastSeqno) & 0x8000) == 0 {
 			// jump forward
 			count := p.SequenceNumber - lastSeqno
+			if count == 0 {
+				// duplicate of the newest packet; the
+				// samplebuilder would mistake it for a
+				// jump of 65535 and flush its buffer
+				return len(buf), nil
+			}
 			if count < 256 {
 				for i := uint16(1); i < count; i++ {
 					fetch(t, lastSeqno+i)
